@@ -548,7 +548,9 @@ def run_standalone(spec):
 
     res = Result()
     script = os.path.join(core.REPO_SRC, "execnet", "script", "socketserver.py")
-    for py in spec["pythons"]:
+    import threading
+
+    def one(py):
         s = socket.socket()
         s.bind(("127.0.0.1", 0))
         port = s.getsockname()[1]
@@ -583,7 +585,7 @@ def run_standalone(spec):
                 except Exception:
                     pass
                 res.violation("standalone-socketserver-does-not-start", f"{label}: exit={p.poll()} output={out.decode('utf-8', 'replace')[-500:]}")
-                continue
+                return
             # the probing connection consumed one accept; the server loops
             group = execnet.Group()
             try:
@@ -595,6 +597,18 @@ def run_standalone(spec):
                 ch.send(21)
                 if ch.receive(30) != 42:
                     res.violation("standalone-socketserver-gateway-broken", label)
+                # like any worker it is still there after the connection has been quiet for a while (a master with nothing
+                # to say, a remote computation that takes its time)
+                slow = gw.remote_exec("import time\ntime.sleep(%s)\nchannel.send('took my time')" % QUIET)
+                time.sleep(QUIET)
+                try:
+                    said = slow.receive(30)
+                    after = gw.remote_exec("channel.send(6 * 7)").receive(30)
+                except BaseException as e:  # noqa
+                    said, after = f"{type(e).__name__}: {str(e)[-150:]}", None
+                res.count("quiet_seconds_on_standalone_servers", int(QUIET))
+                if (said, after) != ("took my time", 42):
+                    res.violation("standalone-socketserver-worker-gone-after-quiet-period", f"{label}: after {QUIET}s without traffic: {said!r}, then {after!r}")
                 seen, mods, hits = gw.remote_exec(FINAL).receive(30)
                 if seen or mods:
                     res.violation("standalone-socketserver-imported-execnet", f"{label}: {seen[:4]} {mods[:4]}")
@@ -609,7 +623,18 @@ def run_standalone(spec):
             except OSError:
                 pass
             shutil.rmtree(d, ignore_errors=True)
+
+    ths = [threading.Thread(target=one, args=(py,)) for py in spec["pythons"]]
+    for t in ths:
+        t.start()
+    for t in ths:
+        t.join(140)
+    if any(t.is_alive() for t in ths):
+        res.inconclusive.append("standalone server run did not finish within 140 s")
     return res
+
+
+QUIET = 11.5
 
 
 def run_cmdlines(spec):
